@@ -510,7 +510,7 @@ fn writer_encode(ctx: &mut Ctx, w: &mut World, wi: usize, s: usize, reuse_choice
             Some(v)
         }
         Ok(Ok(Err(why))) => {
-            ctx.viol(&["C12"], "result-contract", "enc-result/store".into(), format!("{}({k},{r},{b}) EncoderResult: {why}", kind.name()), true);
+            ctx.viol(if why.contains("disagree") || why.contains("differs") { &["C12", "C02"] } else { &["C12"] }, "result-contract", "enc-result/store".into(), format!("{}({k},{r},{b}) EncoderResult: {why}", kind.name()), true);
             None
         }
         Ok(Err(e)) => {
